@@ -432,3 +432,22 @@ func (n *cnNet) registryProjection(t mkvs.ImmutableKeyValueTree) (map[string]any
 	}
 	return map[string]any{"nodes": nl, "entities": el, "claims": claims}, nil
 }
+
+// ledgerProjectionQuiet is ledgerProjection without naming new addresses (safe for concurrent readers).
+func (n *cnNet) ledgerProjectionQuiet(t mkvs.ImmutableKeyValueTree) (int, error) {
+	ctx := context.Background()
+	st := stakingState.NewImmutableState(t)
+	addrs, err := st.Addresses(ctx)
+	if err != nil {
+		return 0, err
+	}
+	k := 0
+	for _, a := range addrs {
+		if _, err := st.Account(ctx, a); err != nil {
+			return k, err
+		}
+		k++
+	}
+	_, err = st.Delegations(ctx)
+	return k, err
+}
